@@ -94,12 +94,16 @@ def St.log (s : St) (c : Call) : St := { s with trace := s.trace ++ [c] }
 def failSource (s : St) (n : Name) (e : Err) : St :=
   { s with failed := s.failed.set n (), processed := s.processed.set n { st := .failed, err := some e } }
 
+/-- `if k in failedMibs: del failedMibs[k]; processed.pop(k, None)`: the module is available now, whatever went wrong
+with it (or with the name it was asked for by) before -/
+def clearStale (s : St) (k : Name) : St :=
+  if s.failed.contains k then { s with failed := s.failed.del k, processed := s.processed.del k } else s
+
 /-- body of `for mibTree in mibTrees` after a successful symbol pass -/
 def registerTree (req : List Name) (s : St) (n alias : Name) (mtime : Int) (tree : Nat)
     (name : Name) (imports : List Name) : St :=
   let s := { s with parsed := s.parsed.set name (alias, mtime, tree) }
-  let s := if s.failed.contains n then
-      { s with failed := s.failed.del n, processed := s.processed.del n } else s
+  let s := clearStale (clearStale s n) name
   let s := { s with queue := s.queue ++ imports }
   if (n ∈ req ∨ alias ∈ req) ∧ name ∉ s.canonical then { s with canonical := s.canonical ++ [name] } else s
 
